@@ -840,7 +840,8 @@ class ExternalTensor(TensorBase, _protocols.TensorProtocol):  # pylint: disable=
             # Use uint8 to read in the full byte. Otherwise ml_dtypes.int4 will clip the values
             # No need to set endianness for uint8
             dt = np.dtype(np.uint8)
-            count = self.size // 2 + self.size % 2
+            # Number of packed bytes: two 4-bit or four 2-bit elements per byte
+            count = self.nbytes
         else:
             # Handle the byte order correctly by always using little endian
             dt = np.dtype(self.dtype.numpy()).newbyteorder("<")
